@@ -73,6 +73,31 @@ CLAIMED = {
         design='DESIGN.md section 5, C19',
         note='Trusted: CPython subprocess.call kills and reaps the child when the timeout expires. Not decided: '
              'grandchildren of shell commands, wall-clock bounds.'),
+    'C05': dict(
+        technique='abstract evaluation of the matcher / transformer code on symbolic texts (a text is an explicit list '
+                  'of 0-3 lines, each a symbol standing for any string followed by a new-line; symbolic string domain), '
+                  'decision-table extraction, path analysis with recorded comparisons, option -> primitive table '
+                  'agreement, constructor-argument plumbing sweep',
+        text='Decides the routing / wiring clauses of the property - each a necessary condition of the documented '
+             'behaviour - and NOT the behaviour of regular expressions or of the str primitives on arbitrary text, which '
+             'is the semantics of re / str (no sound static argument in reach): is-empty is true exactly for the text '
+             'without lines; each of the four comparison strategies of equals gives the match result exactly when an '
+             'equality test between a text read from the expected side and one read from the actual side holds, '
+             'compares the texts as read (nothing stripped or sliced), reads a prefix only with a minimum length '
+             'computed from the whole other side that exceeds it, reads both files in equal chunks; the prefix reader '
+             'returns whole lines in order and stops only when what it returns has reached the minimum; matches routes '
+             '-full to fullmatch and its absence to search, on the whole text, verdict = a match was found; num-lines '
+             'counts one per line; the line quantifiers are ALL / ANY folds (lazy, in order) over every line, numbered '
+             'from 1, without its new-line; -transformed-by gives the verdict of the matcher on the transformed text; '
+             'char-case and strip options are bound to the str primitives of their names and applied to every line; '
+             'replace substitutes with (pattern, replacement, text) in their roles, keeps the new-line out of the '
+             'substitution exactly with -preserve-new-lines, leaves lines not selected by -at unchanged; filter keeps '
+             'exactly the matching lines as read (grep = filter on contents matches); identity returns its input; no '
+             'construction in the matcher / transformer packages cross-wires two arguments. 21 own-made mutants '
+             '(tools/selftest_mutants.py) are each reported by the rule of their clause.',
+        design='DESIGN.md section 5, C05',
+        note='Composition with | is decided under C06-g / C10-h, the logical operators under C06-d, agreement of '
+             'file / program-output / literal sources under C14 and C10-d, filter -line-nums under C13.'),
     'C06': dict(
         technique='abstract evaluation of the grammar tables; path-sensitive abstract interpretation of the '
                   'precedence-climbing parser against every bounded sequence of token-stream answers, compared with a '
@@ -278,9 +303,6 @@ CLAIMED = {
 }
 
 NOT_APPLICABLE = {
-    'C05': 'every clause is about the value of regex matching / text transformation / line counting on arbitrary '
-           'text; no sound static argument in reach bounds those (DESIGN.md section 5, C05); the lazy-evaluation and '
-           'quantifier shapes it shares with other properties are decided under C06-d and C15-c',
 }
 
 PENDING_REASON = 'check under construction in this round - not claimed until it is silent on the unchanged tree and self-tested'
